@@ -16,14 +16,61 @@ RULE = ('each case is one session (connect + 1-4 ops over all operations) run wi
         'equal the unlimited run when the calls return and be a prefix when one raises; a stuck transport must lead to a raise within the C11 bound. '
         'non-trivial = >= 1 write was accepted partially; distinct = event-log digests')
 ASSUMPTIONS = ['a transport reports the number of bytes it accepted (BaseTransport.bulk_write contract); accepting nothing is reported as the transport timeout error or as 0']
-EXPECT_PROBES = {'all': ['short_writes', 'c15_tcp_leg', 'c15_stuck', 'c15_zero_capacity_call', 'c15_eagain']}
+EXPECT_PROBES = {'all': ['short_writes', 'c15_tcp_leg', 'c15_stuck', 'c15_zero_capacity_call', 'c15_eagain', 'c15_reconnect_race']}
 KINDS = ['shell', 'exec_out', 'streaming_shell', 'list', 'stat', 'pull', 'push', 'push', 'root']
 TCP_LEG = True
 OWN = ('wire-format', 'truncated', 'sequence-differs', 'not-a-prefix', 'hang', 'no-termination', 'bound-exceeded', 'wrong-result', 'stuck-returned')
 
 
+def gen_race(seed, g):
+    """One thread (or task) is in the middle of multi-WRITE pushes over a transport that writes short while another closes and
+    re-opens the connection of the shared device: every connection still carries whole messages only."""
+    d = S.gen_device(g)
+    d['latency'] = {'mode': 'zero'}
+    d.pop('stray', None)
+    d['maxdata'] = g.pick([4096, 8192])
+    api = g.pick(['sync', 'sync', 'async'])
+    pusher = [{'op': 'push', 'src': 'bytesio', 'content': {'seed': g.int(0, 1 << 30), 'size': g.int(6000, 30000), 'alpha': 'bin'}, 'path': '/data/local/tmp/r%d' % i, 'mtime': 7, 'rt': 5.0, 'tt': 5.0}
+              for i in range(g.int(1, 2))]
+    other = []
+    if g.chance(0.5):
+        other.append({'op': 'shell', 'cmd': S.add_cmd(g, d, 200), 'decode': False, 'rt': 5.0, 'tt': 5.0})
+    other += ([{'op': 'close'}] if g.chance(0.5) else []) + [{'op': 'connect', 'rt': 5.0}]      # connect() on a connected device re-connects by itself
+    if g.chance(0.5):
+        other.append({'op': 'shell', 'cmd': S.add_cmd(g, d, 200), 'decode': False, 'rt': 5.0, 'tt': 5.0})
+    cfg = {'frag': 'whole', 'call_cost': 1e-5, 'short': 'pos', 'sched': g.pick(['pct', 'dense', 'coarse']), 'pct_d': g.pick([1, 2, 3]), 'pct_k': g.pick([300, 1500]),
+           'p_line': g.pick([0.01, 0.05]), 'sched_step_cap': 1500000}
+    if api == 'async':
+        cfg['ayield'] = g.pick([0.2, 0.6])
+    scn = {'api': api, 'transport': 'mem', 'device': d, 'config': cfg, 'pre': [{'op': 'connect', 'rt': 5.0}], 'actors': [pusher, other], 'object': {'banner': 'simhost'}}
+    return {'seed': seed, 'scn': scn, 'leg': 'mem', 'race': True}
+
+
+def evaluate_race(case, tapes):
+    out = blank()
+    scn = case['scn']
+    run, tape = run_scn(case, 'scn', 0, tapes)
+    absorb(out, run, tape)
+    probs = O.monitors(run, ('c02',))
+    if run.abort:
+        probs.append(O.P('hang' if run.abort in ('hang', 'deadlock') else 'no-termination', 'run aborted: %s %s' % (run.abort, getattr(run, 'abort_msg', ''))))
+    for (sess, n) in getattr(run.device, 'session_truncations', []):
+        probs.append(O.P('truncated', 'connection #%d was closed while the peer had %d bytes of an unfinished message' % (sess, n)))
+    pr = out['probes']
+    pr['c15_reconnect_race'] = 1
+    if run.device.sessions >= 2 and any(p[0] >= 2 and p[1] == 'WRTE' for p in run.device.host_pkts):
+        pr['c15_race_wrte_on_new_connection'] = 1
+    out['violations'] = [p for p in probs if p[0] in OWN]
+    out['nontrivial'] = run.link.short_writes > 0 and run.device.sessions >= 2
+    out['digest'] = run.digest()
+    out['sample'] = brief_scn(scn, run)
+    return out
+
+
 def generate(seed, tier):
     g = Gen(seed)
+    if g.chance(0.06):
+        return gen_race(seed, g)
     big = 20000 if tier == 'quick' else 150000
     scn = S.session(g.int(0, 1 << 60), KINDS, nmax=4, big=big)
     mode = g.pick(['cap', 'cap', 'tiny', 'stuck'], [5, 0, 3, 1])
@@ -56,6 +103,8 @@ def _msgs(dev):
 
 
 def evaluate(case, tapes=None):
+    if case.get('race'):
+        return evaluate_race(case, tapes)
     out = blank()
     scn = case['scn']
     base = copy.deepcopy(scn)
